@@ -181,9 +181,14 @@ def run_unit(unit):
                 wf = Wavefront(o, fields=[(0.0, 1.0)], wavelengths=[w], num_rays=3, distribution='cross')
                 c0 = np.asarray(wf.data[0][0][0], float)[np.where((np.asarray(d.x) == 0) & (np.asarray(d.y) == 0))[0]]
                 part.count('cmp:chief-zero')
-                if len(c0) and np.all(np.isfinite(c0)) and np.max(np.abs(c0)) > 1e-9:
+                # closed-form surfaces: zero to rounding; each iteratively intersected surface (Newton-Raphson, documented
+                # tolerance 1e-10 mm on the sag residual) lets the lone chief ray and the same ray inside a batch stop at
+                # different iterations, so allow 1e-9 mm of path per such surface
+                n_iter = sum(1 for s_ in sp['surfs'] if s_['shape'] not in ('sphere', 'plane', 'conic'))
+                ctol = 1e-9 + n_iter * 1e-9 / (w * 1e-3)
+                if len(c0) and np.all(np.isfinite(c0)) and np.max(np.abs(c0)) > ctol:
                     part.violation(PID, 'chief-ray-opd-zero', 'Wavefront', cond, dict(det0, wavelength=w), observed=float(c0[0]), expected=0.0,
-                                   tol=1e-9)
+                                   tol=ctol)
             # ---- one call covering several fields AND several wavelengths ('all'): every (field, wavelength) cell is the
             #      same quantity as when it is analysed alone
             rows_p = prescription.rows(sp, lambda m, prev: LZ.ref_index(m, 0.5876, prev))
